@@ -210,7 +210,10 @@ def run_case(case, ch: Choices) -> RunResult:
             mb = worlds.materialize(world, root_b, spart, None, decoys_seed=decoys, creation_order_seed=ch.draw("lay.creation", 2 ** 16),
                                     tail_seed=ch.draw("lay.tails", 2 ** 16))
             enum_seed = ch.draw("lay.enum", 2 ** 16)
-            rb = genrun.run_child(root_b, mb["argv"], mb["targets"], hashseed=ch.pick("env.hs", [0, 1, 2]), enum_seed=enum_seed)
+            loc = genrun.LOCALE_ENVS[ch.draw("env.locale", len(genrun.LOCALE_ENVS))] if world.get("locale_safe") else None
+            if loc:
+                res.bump("env.partition_generated_under_another_locale")
+            rb = genrun.run_child(root_b, mb["argv"], mb["targets"], hashseed=ch.pick("env.hs", [0, 1, 2]), enum_seed=enum_seed, proc_env=loc)
             if rb.get("harness_failure"):
                 raise RuntimeError("child failed: %s" % rb.get("child_stderr"))
             res.bump("source.partition")
@@ -242,7 +245,11 @@ def run_case(case, ch: Choices) -> RunResult:
             # media type of the GraphQL-over-HTTP specification); the label is not part of the property
             ctype = ch.pick("peer.ctype", ["application/json", "application/json", "application/json; charset=utf-8",
                                            "application/graphql-response+json", "application/graphql-response+json; charset=utf-8", None])
-            http = {"sdl": sdl, "fault": fault if fault and fault["kind"] != "bad_url" else None, "content_type": ctype}
+            http = {"sdl": sdl, "fault": fault if fault and fault["kind"] != "bad_url" else None, "content_type": ctype,
+                    "ensure_ascii": not ch.chance("peer.raw_unicode", 1, 2),
+                    "encoding": ch.pick("peer.encoding", [None, None, None, "utf-8-sig", "utf-16", "utf-32", "latin1-label", "utf-16-le"])}
+            if http["encoding"]:
+                res.bump("peer.body_encoding.%s" % http["encoding"])
             # history inside one interpreter: the same endpoint was introspected earlier in this process for another
             # project, with other credentials and the other TLS setting; the judged run must still send its own request
             pre_runs = None
@@ -253,8 +260,9 @@ def run_case(case, ch: Choices) -> RunResult:
                     "remote_schema_verify_ssl": (not verify) if ch.chance("remote.flip_verify", 1, 2) else verify})
                 pre_runs = [{"cwd": root_p, "argv": mp_["argv"], "env": {"SIM_TOKEN_OLD": "old-" + token}}] * (1 + ch.draw("remote.npre", 2))
                 res.bump("remote.same_process_earlier_introspection")
+            loc_c = genrun.LOCALE_ENVS[ch.draw("env.locale_remote", len(genrun.LOCALE_ENVS))] if world.get("locale_safe") else None
             rc = genrun.run_child(root_c, mc["argv"], mc["targets"], env={"SIM_TOKEN": token, "SIM_OTHER_" + token.rsplit("_", 1)[-1]: "wrong-value"}, http=http,
-                                  pre_runs=pre_runs, timeout=90 if not pre_runs else 240)
+                                  pre_runs=pre_runs, timeout=90 if not pre_runs else 240, proc_env=loc_c)
             if pre_runs:
                 rc["http"] = (rc.get("http") or [])[rc.get("http_main_from", 0):]
                 rc["constructed"] = (rc.get("constructed") or [])[rc.get("constructed_main_from", 0):]
@@ -363,12 +371,13 @@ def run_case(case, ch: Choices) -> RunResult:
         genrun.rmtree(base)
 
 
-C19_CORPUS = ["W3-chains-diamonds-shared", "W4-input-defaults", "W8-multi-file-tree", "W5-upload-scalars-mixin", "W2-fragment-mixes-in-four",
+C19_CORPUS = ["W3-chains-diamonds-shared", "W4-input-defaults", "W16d-non-ascii-only-in-comments-and-descriptions", "W16-non-ascii-text", "W8-multi-file-tree",
+              "W5-upload-scalars-mixin", "W2-fragment-mixes-in-four",
               "W12-config-0", "W12-config-1-frags", "W10-plugins-3"]
 
 
 def plan(tier, base_seed) -> Plan:
-    cw = C19_CORPUS[:4] if tier == "quick" else C19_CORPUS
+    cw = C19_CORPUS[:6] if tier == "quick" else C19_CORPUS
     fixed = []
     for w in cw:
         fixed.append({"corpus": w, "partitions": 2, "peer_fault": None})
